@@ -157,10 +157,6 @@ func newPsEnv(blocked []string, docExc bool) (*psEnv, error) {
 	return e, nil
 }
 
-func (e *psEnv) tag() string {
-	return fmt.Sprintf("\n<script src=\"//injections.adguard.org/content-script.js?hostname=localhost&option=7&ts=%d\"></script>\n", e.srv.VerifCreatedAt().Unix())
-}
-
 // exchange runs one request through the proxy and classifies what came back.
 func (e *psEnv) exchange(q psReq, ct string) (got psOutcome, detail string, err error) {
 	e.mu.Lock()
@@ -202,20 +198,36 @@ func (e *psEnv) exchange(q psReq, ct string) (got psOutcome, detail string, err 
 	cond, hit := e.hits[id]
 	e.mu.Unlock()
 	got = psOutcome{Origin: hit, Cond: hit && cond, Status: resp.StatusCode}
-	tag := e.tag()
+	// the injected text is whatever sits between the two halves of the origin's bytes; it must be the script tag for
+	// this page (host, all cosmetic options, this server's time stamp) - its exact spelling is the template's business
 	at := strings.Index(psOriginBody, "</head")
+	inserted := ""
+	if len(body) > len(psOriginBody) && bytes.HasPrefix(body, []byte(psOriginBody[:at])) && bytes.HasSuffix(body, []byte(psOriginBody[at:])) {
+		inserted = string(body[at : len(body)-(len(psOriginBody)-at)])
+	}
 	switch {
 	case string(body) == psOriginBody:
 		got.Body = "origin"
-	case string(body) == psOriginBody[:at]+tag+psOriginBody[at:]:
+	case inserted != "":
 		got.Body = "filtered"
+		for _, need := range []string{"<script", "</script>", "content-script.js", "hostname=localhost", "option=7",
+			fmt.Sprintf("ts=%d", e.srv.VerifCreatedAt().Unix())} {
+			if !strings.Contains(inserted, need) {
+				got.Body = "filtered, but the inserted text lacks " + need
+				detail = inserted
+			}
+		}
+		if strings.Count(inserted, "<script") != 1 {
+			got.Body = "filtered with more than one tag"
+		}
 		if resp.ContentLength >= 0 && resp.ContentLength != int64(len(body)) {
 			got.Body = "filtered with a wrong Content-Length"
 		}
 		if resp.Header.Get("Content-Security-Policy") != "" {
 			got.Body = "filtered but the Content-Security-Policy header is still there"
 		}
-	case bytes.Contains(body, []byte("<title>localhost</title>")) && resp.Header.Get("Content-Type") == "text/html; charset=utf-8":
+	case resp.StatusCode == http.StatusInternalServerError && strings.HasPrefix(resp.Header.Get("Content-Type"), "text/html") &&
+		bytes.Contains(body, []byte("localhost")) && !bytes.Contains(body, []byte("origin page")):
 		got.Body = "blockpage"
 	default:
 		got.Body = fmt.Sprintf("something else (%d bytes)", len(body))
